@@ -131,8 +131,8 @@ BUILDS = {
     # F variant: everything that is verified against debug/documented-domain semantics
     'main': dict(parts=['ext', 'vector', 'generic_memchr', 'sse2_memchr', 'avx2_memchr', 'all_memchr', 'x86_64_memchr',
                         'memchr_top', 'root_reexport', 'all_mod', 'all_rabinkarp', 'all_packedpair', 'all_default_rank',
-                        'generic_packedpair', 'sse2_packedpair', 'avx2_packedpair', 'memmem_reexport', 'memmem_pre',
-                        'all_twoway'],
+                        'generic_packedpair', 'sse2_packedpair', 'avx2_packedpair', 'memmem_reexport', 'memmem_pre_full',
+                        'memmem_glue', 'all_twoway'],
                  prelude=P0 + ['prelude/x_eqrk.vrs', 'prelude/x_pp.vrs', 'prelude/x_tw.vrs', 'prelude/hist.vrs']),
     'dev_glue': dict(parts=['ext', 'vector', 'generic_memchr', 'sse2_memchr', 'avx2_memchr', 'all_memchr', 'x86_64_memchr',
                             'memchr_top', 'root_reexport', 'all_mod', 'all_rabinkarp', 'all_packedpair', 'all_default_rank',
